@@ -19,9 +19,9 @@ open A2Verif.Fs.Prodos
 open A2Verif.Read.Prodos (entryAt dirChain idxPtr indexEntries readData trimName bitmapFree)
 open A2Verif.Read.ProdosT
 
-/-- the source with the four repairs the model carries (`Repairs`): the tree after `prodos-delete-grown-directory`,
-`prodos-put-size-limits`, `prodos-bitmap-block-count` and `prodos-put-first-chunk-hole` -/
-def repaired : Repairs := { dirDelete := true, putLimits := true, bitmapCeil := true, firstHole := true }
+/-- the source with the five repairs the model carries (`Repairs`): the tree after `prodos-delete-grown-directory`,
+`prodos-put-size-limits`, `prodos-bitmap-block-count`, `prodos-put-first-chunk-hole` and `prodos-put-field-lengths` -/
+def repaired : Repairs := { dirDelete := true, putLimits := true, bitmapCeil := true, firstHole := true, fieldsFirst := true }
 
 /-- header fields of the volume key block -/
 def hdrTotal (r : Raw) : Nat := le16 (unitAt r 2) 41
